@@ -360,7 +360,7 @@ PROPS = {
     },
     "C15": {
         "model_is_the_property": True,
-        "streams": ["recorder"],
+        "streams": ["recorder", "rec-tick"],
         "rule": "recorder: every call sequence of length <= 2 (thorough: 3) over a 23-call alphabet (four increments incl. an out-of-range histogram value, three gauge setters, zero-valued "
                 "arguments of all of them, Begin/"
                 "EndIteration, SetTime, SetDuration, SetTotalDuration, SetID, EndTest, Reset), each followed by EndTest and also run inside a persisted iteration after non-zero gauges and counters, x ten constructors (raw, single, grouped, interval, four "
